@@ -47,7 +47,8 @@ def base_messages(bc, codec, seed, n):
 def spans(b, bc, codec, hexb):
     """Structural positions of a VALID encoded message (input generation only): returns dict of lists of offsets."""
     hl = 36 if hexb else 20
-    pos = {'bitmap': list(range(4, hl)), 'prefix': [], 'pdslen': [], 'tlvlen': [], 'mti': [0, 1, 2, 3], 'typed': []}
+    pos = {'bitmap': list(range(4, hl)), 'prefix': [], 'pdslen': [], 'pdstag': [], 'pdsend': [], 'tlvlen': [], 'mti': [0, 1, 2, 3],
+           'typed': []}
     bm = bytes.fromhex(b[4:36].decode('ascii')) if hexb else b[4:20]
     p = hl
     for bit in range(2, 129):
@@ -68,7 +69,10 @@ def spans(b, bc, codec, hexb):
             q = body
             while q + 7 <= body + n:
                 pos['pdslen'].append(list(range(q + 4, q + 7)))
+                pos['pdstag'] += list(range(q, q + 4))
                 q += 7 + int(b[q + 4:q + 7].decode(codec))
+            if pl:
+                pos['pdsend'].append((p, pl, body + n))
         if f.get('field_processor') == 'ICC':
             q = body
             while q < body + n:
@@ -107,7 +111,7 @@ def mutants_of(b, bc, codec, hexb, r, tier, targeted=True):
     vals = subst_bytes(codec, 'quick')
     allvals = subst_bytes(codec, tier)          # thorough: every byte value, on the length-carrying positions
     lengths = [q for grp in sp['prefix'] for q in grp] + [q for grp in sp['pdslen'] for q in grp] + sp['tlvlen']
-    for q in lengths + sp['mti']:
+    for q in lengths + sp['mti'] + sp['pdstag']:
         for v in (allvals if q in lengths else vals):
             if b[q] != v:
                 yield 'byte %d := 0x%02x' % (q, v), b[:q] + bytes([v]) + b[q + 1:]
@@ -128,8 +132,15 @@ def mutants_of(b, bc, codec, hexb, r, tier, targeted=True):
                     yield 'hex bitmap pair at %d := %r' % (q, pair), b[:q] + pair + b[q + 2:]
         yield 'hex bitmap with two white space pairs', b[:6] + b'    ' + b[10:]
     # ICC data that ends inside a tag: the last TLV is replaced by a tag prefix (message length prefix adjusted)
-    for q in sp['tlvlen'][-1:]:
-        pass
+    # a sub-element carrier made longer (its own length prefix adjusted, so the outer framing stays consistent) by
+    # filler that belongs to no sub-element: blanks, NULs, x40, zeros after the last sub-element
+    for (p0, pl, end) in sp['pdsend']:
+        cur = int(b[p0:p0 + pl].decode(codec))
+        for fill in (' '.encode(codec), b'\x00', b'\x40', '0'.encode(codec)):
+            for k in (1, 2, 3, 6, 7, 9):
+                if cur + k < 10 ** pl:
+                    yield 'sub-element carrier at %d extended by %d x %r' % (p0, k, fill), \
+                        b[:p0] + ('%0*d' % (pl, cur + k)).encode(codec) + b[p0 + pl:end] + fill * k + b[end:]
     for q in sp['typed']:
         for v in vals[:: (2 if tier == 'thorough' else 3)]:
             if b[q] != v:
@@ -202,7 +213,8 @@ def drive(args):
         nonlocal tid
         if tid % 97 == 13:
             drv.hazard(drv.rng(seed, 'hazard', tid))
-        e, d = isoc.do_loads(data, codec, bc, hexb)
+        with drv.Env('mut', lo, tid, every=4):         # every fourth call with the library's debug logging on
+            e, d = isoc.do_loads(data, codec, bc, hexb)
         traces.append({'tid': tid, 'hex': hexb, 'events': [e], '_desc': desc, '_m': base,
                        '_d': repr(d)[:300] if d is not None else None})
         tid += 1
